@@ -347,7 +347,19 @@ def run_one(cfg, choices):
         st = MS()
     else:
         env.RANDOM.script = [9, 9, 9]
-        st = DS(base=MS('b'), changes=MS('c'))
+        base = MS('b')
+        if cfg.get('committer') == 'issued':
+            # the id after the allocator's start exists already (in the
+            # base), and the random source keeps drawing the id the
+            # committer is about to commit
+            from mc import hclasses
+            txn0 = world.TMD()
+            base.tpc_begin(txn0)
+            base.store(p64(10), Z64, hclasses.mkrec('P', 0), '', txn0)
+            base.tpc_vote(txn0)
+            base.tpc_finish(txn0)
+            env.RANDOM.script = [9] * 8
+        st = DS(base=base, changes=MS('c'))
     got = []
 
     def alloc(s, t):
@@ -357,8 +369,17 @@ def run_one(cfg, choices):
     def committer(s, t):
         from mc import hclasses
         txn = world.TMD()
+        how = cfg.get('committer')
+        if how == 'issued':
+            # commits a new object under an id it was issued
+            oid = st.new_oid()
+            got.append((t.id, oid))
+        else:
+            # an id of its own choosing (a copy tool): far above / just
+            # above the allocator's mark
+            oid = p64(2 if how == 'low' else 100)
         st.tpc_begin(txn)
-        st.store(p64(100), Z64, hclasses.mkrec('P', 1), '', txn)
+        st.store(oid, Z64, hclasses.mkrec('P', 1), '', txn)
         st.tpc_vote(txn)
         st.tpc_finish(txn)
         got.append((t.id, st.new_oid()))
@@ -397,7 +418,7 @@ def judge(cfg, S, w):
     if len(set(oids)) != len(oids):
         viol.append(('unique', '%s:threads:issued-twice' % cfg['kind'],
                      dict(got=w['got'])))
-    if cfg.get("committer") and p64(100) in oids:
+    if cfg.get("committer") == 1 and p64(100) in oids:
         viol.append(('unique', '%s:threads:exists' % cfg['kind'],
                      dict(got=w['got'])))
     return repr(tuple(w['got'])), viol
@@ -411,7 +432,9 @@ def run(rep, tier, seed, workers):
         '2^63-1}, abort after new_oid, pack, reopen, DB-level add + '
         'savepoint + export/import; demo storages get a scripted random '
         'source aimed at ids in the base; schedules: 2-3 allocator threads '
-        '(+ a committer of an explicit id) to the preemption bound, with a '
+        '(+ a committer of an explicit id far above / just above the '
+        'allocator\'s mark, or - demo storage - of an issued id that the '
+        'random source keeps drawing) to the preemption bound, with a '
         'line-level pass over the allocators; evaluations = ids checked; '
         'non-trivial = history that issued at least two ids')
     tasks = []
@@ -433,6 +456,14 @@ def run(rep, tier, seed, workers):
                           allocators=2, committer=1), bound))
         plan.append((dict(prop='C20', kind=kind, name='alloc2-lines',
                           allocators=2, lines=1), bound))
+        # (only "never twice" is judged here: an allocator may get the
+        # low id before the committer stores under it)
+        plan.append((dict(prop='C20', kind=kind, name='alloc2+commit-low',
+                          allocators=2, committer='low'), bound))
+        if kind == 'D':
+            plan.append((dict(prop='C20', kind=kind,
+                              name='alloc1+commit-issued', allocators=1,
+                              committer='issued'), bound))
         if tier != 'quick':
             plan.append((dict(prop='C20', kind=kind, name='alloc3',
                               allocators=3), bound))
